@@ -234,7 +234,7 @@ func genMDNS(r *lib.Run, rng *lib.Rand) {
 		var out []byte
 		n := rng.Pick(0, 1, 2, 3, 4, 5)
 		for i := 0; i < n; i++ {
-			s := pick(rng, []string{"model=MacBookPro15,1", "ty=Brother HL-L2350DW", "DvTy=iPhone", "md=Chromecast", "txtvers=1", "rp=ipp/print", "a=b=c", "novalue", "=x", "model=", "md"})
+			s := pick(rng, []string{"model=MacBookPro15,1", "ty=Brother HL-L2350DW", "DvTy=iPhone", "md=Chromecast", "txtvers=1", "rp=ipp/print", "a=b=c", "novalue", "=x", "model=", "md", "Model=Mac=Book", "MD=Cast", "TY=Laser=1", "dvty=iPad", "DVTY=x", "mOdEl=m"})
 			out = append(out, byte(len(s)))
 			out = append(out, s...)
 		}
